@@ -894,6 +894,105 @@ theorem C08_partial (L : Layout) (h1 : H1 L) (h2 : H2 L) (y : Sys8) (hy : Reacha
         simp only [C08_partial_i_monitor L h2 y hy ob hob k hk hkt' hkM,
           C08_partial_ii L h1 h2 y hy ob hob k hk hkt' hkM, if_true, List.append_nil]
 
+/-! ### "M counts again once it has been released and pressed again" (every layout, no hypothesis) -/
+
+/-- a key becomes absorbed only by a step that fires a mapping listing it in its absorbing list, and an
+accepted press of a key un-absorbs that very key first -/
+theorem C08_absorbed_only_by_firing {L : Layout} {P : List Key} {s : State} (h : Inv L P s) (e : Event) (x : Key)
+    (hx : x ∈ (step L s e).1.absorbed) :
+    (x ∈ s.absorbed ∧ ¬(e = Event.pressed x ∧ x ∉ s.inp)) ∨
+    ∃ k fm, e = Event.pressed k ∧ k ∉ s.inp ∧ findMapping L s k = some fm ∧ x ∈ fm.absorbing := by
+  cases e with
+  | released k =>
+    left
+    by_cases hk : k ∈ s.inp
+    · rw [step_released_accepted L s k hk] at hx
+      have : (newlyRelease s k).1.absorbed = s.absorbed := (releaseKey_spec k h.i).2.2.2.1
+      rw [this] at hx; exact ⟨hx, by simp⟩
+    · rw [step_released_ignored L s k hk] at hx; exact ⟨hx, by simp⟩
+  | pressed k =>
+    by_cases hk : k ∈ s.inp
+    · left; rw [step_pressed_ignored L s k hk] at hx; exact ⟨hx, by intro hc; exact hc.2 (by rw [← (Event.pressed.inj hc.1)]; exact hk)⟩
+    · rw [step_pressed_accepted L s k hk] at hx
+      have h0 := pressPrep_iinv k h.i
+      have hp : ∀ y, y ∈ (pressPrep s k).absorbed → y ∈ s.absorbed ∧ y ≠ k := by
+        intro y hy; simpa [pressPrep] using hy
+      have hleft : x ∈ (pressPrep s k).absorbed → (x ∈ s.absorbed ∧ ¬(Event.pressed k = Event.pressed x ∧ x ∉ s.inp)) := by
+        intro hy
+        refine ⟨(hp x hy).1, ?_⟩
+        intro hc
+        exact (hp x hy).2 (Event.pressed.inj hc.1).symm
+      cases hf : findMapping L s k with
+      | some m =>
+        rw [newlyPress_fire hf] at hx
+        rcases addNewMapping_absorbed_sub _ k m h0 x hx with h1 | h1
+        · exact Or.inl (hleft h1)
+        · exact Or.inr ⟨k, m, rfl, hk, hf, h1⟩
+      | none =>
+        cases hc : noHit s k with
+        | true =>
+          rw [newlyPress_pass hf hc] at hx
+          exact Or.inl (hleft (passThrough_absorbed_sub _ k h0 x hx))
+        | false =>
+          rw [newlyPress_skip hf hc] at hx
+          exact Or.inl (hleft hx)
+
+/-- C08, last sentence, first half: once M has been released (so that its next press is accepted) and is
+pressed again, it is an input key again and it is NOT absorbed any more — unless this very press fires a
+mapping that lists M in its own absorbing list.  Every layout, every state satisfying the invariant. -/
+theorem C08_pressed_again {L : Layout} {P : List Key} {s : State} (h : Inv L P s) (M : Key) (hM : M ∉ s.inp) :
+    M ∈ (step L s (Event.pressed M)).1.inp ∧
+    (M ∈ (step L s (Event.pressed M)).1.absorbed → ∃ fm, findMapping L s M = some fm ∧ M ∈ fm.absorbing) := by
+  constructor
+  · have := (step_inv L P s (Event.pressed M) h).1
+    rw [step_pressed_accepted L s M hM]
+    cases hf : findMapping L s M with
+    | some m => rw [newlyPress_fire hf]; simp
+    | none =>
+      cases hc : noHit s M with
+      | true => rw [newlyPress_pass hf hc]; simp
+      | false => rw [newlyPress_skip hf hc]; simp
+  · intro hx
+    rcases C08_absorbed_only_by_firing h (Event.pressed M) M hx with ⟨_, hno⟩ | ⟨k, fm, he, _, hf, hab⟩
+    · exact absurd ⟨rfl, hM⟩ hno
+    · have : M = k := Event.pressed.inj he
+      subst this; exact ⟨fm, hf, hab⟩
+
+/-- C08, last sentence, second half: a held key that is not absorbed COUNTS — for a press of any other key k
+it passes the per-key test of `is_supported` (held and not treated as absorbed), so a mapping requiring M is
+selected exactly as if M had never been absorbed (`findMapping` is the last-listed mapping all of whose trigger
+keys pass that test).  It stays so until a mapping absorbing M fires (`C08_absorbed_only_by_firing`). -/
+theorem C08_counts (s : State) (k M : Key) (hMi : M ∈ s.inp) (hMa : M ∉ s.absorbed) :
+    ((pressPrep s k).inp.contains M &&
+      !(if shouldAbsorb (pressPrep s k) k then (pressPrep s k).absorbed else []).contains M) = true := by
+  have h1 : (pressPrep s k).inp = s.inp := rfl
+  have h2 : M ∉ (pressPrep s k).absorbed := by simp [pressPrep, hMa]
+  rw [h1]
+  split <;> simp [hMi, h2]
+
+/-- … and so, with M counted, a mapping whose other trigger keys are all held and unabsorbed is supported -/
+theorem C08_counts_supported (s : State) (k : Key) (m : Mapping)
+    (hall : ∀ x, x ∈ m.frm → x = k ∨ (x ∈ s.inp ∧ x ∉ s.absorbed)) :
+    isSupported m.frm (pressPrep s k).inp
+      (if shouldAbsorb (pressPrep s k) k then (pressPrep s k).absorbed else []) k = true := by
+  unfold isSupported
+  rw [List.all_eq_true]
+  intro x hx
+  rcases hall x hx with h | ⟨h1, h2⟩
+  · simp [h]
+  · rw [C08_counts s k x h1 h2]; simp
+
+/-! Non-vacuity of the last sentence: after LEFTSHIFT↓ A↓ A↑ LEFTSHIFT↑ LEFTSHIFT↓ no obligation is pending,
+LEFTSHIFT is an input key and not absorbed, and a press of B fires the LEFTSHIFT+B chord (whereas without the
+release and re-press it does not: see the example at the end of this file). -/
+example :
+    let L : Layout := [⟨[42, 30], [42, 30], Repeat.normal, [42]⟩, ⟨[42, 48], [42, 48], Repeat.normal, [42]⟩]
+    let y := Sys8.run L Sys8.init
+      [Event.pressed 42, Event.pressed 30, Event.released 30, Event.released 42, Event.pressed 42]
+    y.obls = [] ∧ 42 ∈ y.x.s.inp ∧ 42 ∉ y.x.s.absorbed ∧
+    findMapping L y.x.s 48 = some ⟨[42, 48], [42, 48], Repeat.normal, [42]⟩ := by
+  decide
+
 /-! ### the full statement is false outside H1 ∧ H2 (known findings D6, D7) -/
 
 def d6Layout : Layout :=
